@@ -258,7 +258,9 @@ def work(task):
 def shapes(tier):
     if tier == "quick":
         # NW <= 4 in full; (2,3) and (3,2) on a reduced eigenvalue menu so that N>=2 with W>=3 is reached
-        return [(N, W) for N in range(1, 5) for W in range(1, 5) if N * W <= 4] + [(2, 3), (3, 2)]
+        # NW = 24 in three factorisations: more than 255 compressed entries (300), many classes / long classes
+        return [(N, W) for N in range(1, 5) for W in range(1, 5) if N * W <= 4] + [(2, 3), (3, 2)] + \
+            [(4, 6), (2, 12), (1, 24)]
     sh = [(N, W) for N in range(1, 13) for W in range(1, 13) if N * W <= 12]
     sh += [(6, 10), (10, 6), (4, 15), (2, 30), (1, 60)]
     return sh
